@@ -339,6 +339,25 @@ func c11Run(c *core.Case, o *core.Outcome) {
 			o.Violate("gauss-volume:"+desc, "no cyclic alignment of the weights explains the per-window sums %v: %s (%s)", sums, why, desc)
 			return
 		}
+		if n <= 4000 && si%2 == 0 {
+			// the first window asked for again after the later ones (a chart drawn after a run, a wall clock set back): the
+			// profile is a function of the instant, so the window requests what it requested before, give or take the carry
+			re := 0.0
+			for k := 0; k < n; k++ {
+				v := rate(t0.Add(f * time.Duration(k)))
+				if v < 0 {
+					o.Violate("gauss-negative:"+desc, "negative request %d when window 0 is evaluated again, tick %d (%s)", v, k, desc)
+					return
+				}
+				re += float64(v)
+			}
+			o.Events += int64(n)
+			if math.Abs(re-sums[0]) > 2+2e-9*sums[0] {
+				o.Violate("gauss-revisit:"+desc, "window 0 requested %.0f when first evaluated and %.0f when evaluated again after %d later windows (%s)", sums[0], re, windows-1, desc)
+				return
+			}
+			o.AddObs("windows_revisited", 1)
+		}
 		if bestErr > worst {
 			worst = bestErr
 		}
